@@ -190,3 +190,67 @@ def respond (S : SigScheme) (H : Bytes → Bytes) (p : Proto) (ltSeed onlSeed : 
   | .draft13 => magic ++ le32 resp.length ++ resp
 
 end Rough.Spec.RT
+
+namespace Rough.Spec.RT
+
+/-- C01's notion of an authentic response for a pinned key `ltpk`, nothing more: a signature chain
+    from that key over the delegation and from the delegated key over the signed response, under the
+    protocol's context strings; the midpoint inside the delegation window; a Merkle proof binding
+    the client's own request (nonce for classic, whole packet for draft-13) to the signed root.
+    Returns the signed midpoint and radius. (No opinion on NONC echo, VER/VERS, INDX range, widths.) -/
+def authentic (S : SigScheme) (H : Bytes → Bytes) (p : Proto) (ltpk request nonce response : Bytes) :
+    Option (Nat × Nat) := do
+  let body ← match p with
+    | .classic => some response
+    | .draft13 => if response.length ≥ 12 ∧ response.take 8 = magic then some (response.drop 12) else none
+  let m ← decode body
+  let sig ← m.get Tag.SIG
+  let path ← m.get Tag.PATH
+  let srepB ← m.get Tag.SREP
+  let certB ← m.get Tag.CERT
+  let indxB ← m.get Tag.INDX
+  let cert ← decode certB
+  let certSig ← cert.get Tag.SIG
+  let deleB ← cert.get Tag.DELE
+  let dele ← decode deleB
+  let pubk ← dele.get Tag.PUBK
+  let mint ← dele.get Tag.MINT
+  let maxt ← dele.get Tag.MAXT
+  let srep ← decode srepB
+  let midp ← srep.get Tag.MIDP
+  let radi ← srep.get Tag.RADI
+  let root ← srep.get Tag.ROOT
+  if midp.length < 8 ∨ radi.length < 4 ∨ mint.length < 8 ∨ maxt.length < 8 ∨ indxB.length < 4 then none
+  if certSig.length ≠ 64 ∨ sig.length ≠ 64 ∨ pubk.length ≠ 32 then none
+  if ¬ S.pkValid ltpk ∨ ¬ S.pkValid pubk then none
+  if ¬ S.verify ltpk (deleCtx p ++ deleB) certSig then none
+  if ¬ S.verify pubk (srepCtx p ++ srepB) sig then none
+  let t := u64le midp
+  if ¬ (u64le mint ≤ t ∧ t ≤ u64le maxt) then none
+  if path.length % nodeWidth p ≠ 0 then none
+  let leaf := match p with | .classic => nonce | .draft13 => request
+  let r := climb H p (hash H p ((0x00 : UInt8) :: leaf)) (u32le indxB) (chunks (nodeWidth p) path)
+  if r ≠ root then none
+  pure (t, u32le radi)
+
+/-- a dishonest or faulty responder for the client rig: like `respond` but with independently
+    chosen delegation / response signing contexts, wire protocol, signed NONC and leaf position -/
+def respondWith (S : SigScheme) (H : Bytes → Bytes) (wire dctx sctx : Proto) (ltSeed onlSeed : Bytes)
+    (midp radi mint maxt : Nat) (leaves : List Bytes) (i : Nat) (nonce : Bytes) : Bytes :=
+  let c := mcfg H wire
+  let root := MT.T.hash c (MT.treeOf leaves)
+  let path := (MT.pathOf c leaves i).flatten
+  let dele := encode (mkMsg [(Tag.PUBK, S.pk onlSeed), (Tag.MINT, le64 mint), (Tag.MAXT, le64 maxt)])
+  let cert := encode (mkMsg [(Tag.SIG, S.sign ltSeed (deleCtx dctx ++ dele)), (Tag.DELE, dele)])
+  let srep := match wire with
+    | .classic => encode (mkMsg [(Tag.RADI, le32 radi), (Tag.MIDP, le64 midp), (Tag.ROOT, root)])
+    | .draft13 => encode (mkMsg [(Tag.VER, ver13), (Tag.RADI, le32 radi), (Tag.MIDP, le64 midp),
+                                  (Tag.VERS, [0, 0, 0, 0] ++ ver13), (Tag.ROOT, root)])
+  let sig := S.sign onlSeed (srepCtx sctx ++ srep)
+  let resp := encode (mkMsg [(Tag.SIG, sig), (Tag.NONC, nonce), (Tag.PATH, path), (Tag.SREP, srep),
+                             (Tag.CERT, cert), (Tag.INDX, le32 i)])
+  match wire with
+  | .classic => resp
+  | .draft13 => magic ++ le32 resp.length ++ resp
+
+end Rough.Spec.RT
